@@ -105,7 +105,7 @@ func c02Case(tier string, seed int64, idx int, scratch string) rt.CaseResult {
 	p := seqrun.Profile{
 		Steps: tierN(tier, 50, 100), Keys: keys, Lens: []int{16, 16, 16, 3000}, MaxOpen: 5, TxBias: 60,
 		TagPrefix: fmt.Sprintf("h%d-", idx),
-		W:         map[string]int{"begin": 12, "set": 30, "delete": 8, "get": 4, "getkeys": 3, "commit": 10, "rollback": 5, "collect": 5, "drain": 1, "setreader": 2, "create": 2, "otherdb": 1},
+		W:         map[string]int{"begin": 12, "set": 30, "delete": 8, "get": 4, "getkeys": 3, "commit": 10, "rollback": 5, "collect": 5, "drain": 1, "setreader": 2, "create": 2, "otherdb": 1, "faultwrite": 2},
 	}
 	if idx%7 == 3 { // many versions of one key: exercises the binary search
 		p.Keys = []string{"a"}
@@ -151,7 +151,7 @@ func c03Case(tier string, seed int64, idx int, scratch string) rt.CaseResult {
 	p := seqrun.Profile{
 		Steps: tierN(tier, 40, 80), Keys: keys, Lens: []int{12}, MaxOpen: 4, TxBias: 70,
 		TagPrefix: fmt.Sprintf("h%d-", idx),
-		W:         map[string]int{"begin": 14, "set": 24, "create": 4, "setreader": 4, "delete": 8, "commit": 16, "rollback": 6, "collect": 2, "getkeys": 1, "otherdb": 1},
+		W:         map[string]int{"begin": 14, "set": 24, "create": 4, "setreader": 4, "delete": 8, "commit": 16, "rollback": 6, "collect": 2, "getkeys": 1, "otherdb": 1, "faultwrite": 2},
 	}
 	switch idx % 4 {
 	case 1:
